@@ -242,7 +242,7 @@ Proof.
   assert (Hr : FSound (fst r) v).
   { unfold r. destruct dirs as [d|]; [apply f_pass_sound; exact HS|]. cbn zeta. cbn [fst].
     apply f_pass_sound. apply f_pass_sound. exact HS. }
-  destruct (match dirs with Some _ => true | None => infer_converged (snd r) end); cbn [fir_state]; [exact Hr|].
+  cbn zeta. fold r. match goal with |- context [if ?c then _ else _] => destruct c end; cbn [fir_state]; [exact Hr|].
   destruct (negb (Nat.eqb ms 0) && Nat.leb ms (S steps))%bool; cbn [fir_state]; [exact Hr|].
   apply IH. exact Hr.
 Qed.
